@@ -173,7 +173,7 @@ func analyse(repo string) (*analysis, error) {
 		rel := strings.TrimPrefix(strings.TrimPrefix(l.Path, modPath), "/")
 		seen[rel] = true
 		filter := scope[rel]
-		x := &xl{fset: fset, l: l, repo: repo, sites: &an.Sites, allow: al}
+		x := &xl{fset: fset, l: l, repo: repo, sites: &an.Sites, allow: al, ctorMaps: ctorMapFields(l)}
 		pkgName := l.Pkg.Name()
 		for i, file := range l.Files {
 			if filter != nil && !filter(l.Names[i]) {
